@@ -2927,3 +2927,142 @@ func nonNegExpr(info *types.Info, fi *FuncInfo, f Facts, e ast.Expr) bool {
 	})
 	return res
 }
+
+// lockBalance: every mutex a function locks is unlocked again on every path to every exit of that function (directly,
+// or by a deferred unlock that the path has registered). A lock that survives an early return blocks every later user
+// of the object for ever: requests, Close, the event handlers. Function literals are judged as functions of their own.
+// Functions that exist to return with the lock held are listed in lockHolders with the reason.
+var lockHolders = map[string]string{}
+
+func lockBalance(p *Program, r *Report, scope func(*FuncInfo) bool) int {
+	n := 0
+	check := func(g *Graph, name string, body *ast.BlockStmt, info *types.Info) {
+		type lst struct{ held, deferred strset }
+		mutexOps := func(nd ast.Node) (ops [][2]string) {
+			inspectNoLit(nd, func(x ast.Node) bool {
+				c, ok := x.(*ast.CallExpr)
+				if !ok {
+					return true
+				}
+				kind, isMu := isMutexMethod(calleeName(info, c))
+				if !isMu {
+					return true
+				}
+				if rx := recvExpr(c); rx != nil {
+					ops = append(ops, [2]string{kind, strings.ReplaceAll(exprStr(rx), " ", "")})
+				}
+				return true
+			})
+			return
+		}
+		key := func(kind, name string) string {
+			if kind == "RLock" || kind == "RUnlock" {
+				return "R:" + name
+			}
+			return name
+		}
+		any := false
+		inspectNoLit(body, func(x ast.Node) bool {
+			if len(mutexOps(x)) > 0 {
+				any = true
+			}
+			return !any
+		})
+		if !any {
+			return
+		}
+		sol := Solve(g, Lattice[lst]{
+			Init: lst{strset{}, strset{}},
+			Join: func(a, b lst) lst { return lst{a.held.union(b.held), a.deferred.intersect(b.deferred)} },
+			Eq:   func(a, b lst) bool { return a.held.eq(b.held) && a.deferred.eq(b.deferred) },
+			Step: func(s lst, st Step) lst {
+				if st.Kind != StNode {
+					return s
+				}
+				if _, isGo := st.Node.(*ast.GoStmt); isGo {
+					return s
+				}
+				if d, isDefer := st.Node.(*ast.DeferStmt); isDefer {
+					// defer mu.Unlock() / defer func() { mu.Unlock() }()
+					var ops [][2]string
+					if lit, isLit := d.Call.Fun.(*ast.FuncLit); isLit {
+						ast.Inspect(lit.Body, func(x ast.Node) bool {
+							if c, ok := x.(*ast.CallExpr); ok {
+								if kind, isMu := isMutexMethod(calleeName(info, c)); isMu {
+									if rx := recvExpr(c); rx != nil {
+										ops = append(ops, [2]string{kind, strings.ReplaceAll(exprStr(rx), " ", "")})
+									}
+								}
+							}
+							return true
+						})
+					} else {
+						ops = mutexOps(d.Call)
+					}
+					for _, op := range ops {
+						if op[0] == "Unlock" || op[0] == "RUnlock" {
+							s = lst{s.held, s.deferred.with(key(op[0], op[1]))}
+						}
+					}
+					return s
+				}
+				for _, op := range mutexOps(st.Node) {
+					k := key(op[0], op[1])
+					switch op[0] {
+					case "Lock", "RLock":
+						s = lst{s.held.with(k), s.deferred}
+					default:
+						s = lst{s.held.without(k), s.deferred}
+					}
+				}
+				return s
+			},
+		})
+		for _, e := range g.Exits() {
+			if e.Kind == ExitPanic {
+				continue
+			}
+			var st lst
+			var ok bool
+			var at ast.Node = body
+			if e.Node != nil {
+				st, ok = sol.After(e.Node)
+				at = e.Node
+			} else {
+				st, ok = sol.AtExit(e)
+			}
+			if !ok {
+				continue
+			}
+			var leaked []string
+			for k := range st.held {
+				if !st.deferred[k] {
+					leaked = append(leaked, k)
+				}
+			}
+			sort.Strings(leaked)
+			n++
+			if why, isHolder := lockHolders[name]; isHolder && len(leaked) > 0 {
+				r.OK(at, name+" returns with "+strings.Join(leaked, ", ")+" held", why)
+				continue
+			}
+			r.Check(len(leaked) == 0, at, name+" releases every mutex it locked before this exit", "Unlock (or a registered deferred Unlock) on every path",
+				"the function can return here with "+strings.Join(leaked, ", ")+" still locked: the next goroutine that needs the lock (a request, an event handler, Close) blocks for ever")
+		}
+	}
+	for _, fi := range p.SortedFuncs() {
+		if fi.Decl.Body == nil || !scope(fi) {
+			continue
+		}
+		check(p.GraphOf(fi), fi.Name, fi.Decl.Body, fi.Pkg.TypesInfo)
+		k := 0
+		ast.Inspect(fi.Decl.Body, func(x ast.Node) bool {
+			if lit, ok := x.(*ast.FuncLit); ok {
+				k++
+				check(p.GraphOfLit(fi, lit), fmt.Sprintf("%s$%d", fi.Name, k), lit.Body, fi.Pkg.TypesInfo)
+			}
+			return true
+		})
+	}
+	return n
+}
